@@ -211,7 +211,7 @@ func TestCheck(t *testing.T) {
 		r.Eval(1)
 		r.Count("scenarios_rt", 1)
 		for k := range res.Overlap {
-			r.Distinct("overlap:" + k)
+			r.Count("api_overlap_seen:"+k, 1)
 			_ = overlaps
 		}
 	})
@@ -240,7 +240,7 @@ func TestCheck(t *testing.T) {
 		r.Count("scenarios_vt", 1)
 	}
 	r.Finish("exploration",
-		"one evaluation = one seeded producer scenario (client options x API mix x cancellation x Flush/Abort/Purge/Close x broker fault plan) run against kfake behind faultnet, RT (loopback TCP) or VT (synctest bubble, virtual time); non-trivial = at least one injected fault fired, at least one promise succeeded and one failed, and an abort/purge/close/cancel overlapped in-flight records; distinct by (mode, fault kinds fired, promise error classes, ops); API overlap pairs seen are also counted as distinct observations",
+		"one evaluation = one seeded producer scenario (client options x API mix x cancellation x Flush/Abort/Purge/Close x broker fault plan) run against kfake behind faultnet, RT (loopback TCP) or VT (synctest bubble, virtual time); non-trivial = at least one injected fault fired, at least one promise succeeded and one failed, and an abort/purge/close/cancel overlapped in-flight records; distinct by (mode, fault kinds fired, promise error classes, ops)",
 		"kfake is the broker (checked separately by C29/C32)",
 		"RT: a promise still missing when the wall-clock watchdog fires is reported inconclusive, never a violation; VT: missing after 30 virtual minutes (far beyond every configured timeout) is a violation",
 	)
